@@ -1,0 +1,48 @@
+//! Verification hook (cfg emmyluals_emmylua_analyzer_rust_verif): per-thread counters of the
+//! parser's nesting levels and of its token-pump steps. Add-only instrumentation, no behaviour.
+use std::cell::Cell;
+
+thread_local! {
+    static LEVEL_HIGH_WATER: Cell<usize> = const { Cell::new(0) };
+    static TYPE_LEVEL_HIGH_WATER: Cell<usize> = const { Cell::new(0) };
+    static PUMP_STEPS: Cell<u64> = const { Cell::new(0) };
+}
+
+/// Resets the counters of the calling thread.
+pub fn reset() {
+    LEVEL_HIGH_WATER.with(|c| c.set(0));
+    TYPE_LEVEL_HIGH_WATER.with(|c| c.set(0));
+    PUMP_STEPS.with(|c| c.set(0));
+}
+
+pub(crate) fn note_level(level: usize) {
+    LEVEL_HIGH_WATER.with(|c| c.set(c.get().max(level)));
+}
+
+pub(crate) fn note_type_level(level: usize) {
+    TYPE_LEVEL_HIGH_WATER.with(|c| c.set(c.get().max(level)));
+}
+
+pub(crate) fn add_pump_steps(steps: usize) {
+    PUMP_STEPS.with(|c| c.set(c.get() + steps as u64));
+}
+
+/// Highest nesting level of expressions/statements reached since `reset`.
+pub fn high_water() -> usize {
+    LEVEL_HIGH_WATER.with(|c| c.get())
+}
+
+/// Highest nesting level of doc types reached since `reset`.
+pub fn type_high_water() -> usize {
+    TYPE_LEVEL_HIGH_WATER.with(|c| c.get())
+}
+
+/// Token-array reads of `bump`, `peek_next_token` and `peek_nth_token` since `reset`.
+pub fn pump_steps() -> u64 {
+    PUMP_STEPS.with(|c| c.get())
+}
+
+/// The nesting limit compiled into the parser.
+pub fn max_nesting_level() -> usize {
+    crate::parser::verif_max_nesting_level()
+}
